@@ -26,4 +26,21 @@ TEXTS = {
   "note": "Trusted: Lean kernel, piece values/loop order regenerated from simple_evaluator.rs by regex, harness/driver. The i16 wrap of count*value for > 36 queens is modelled (wrapI16) but outside the claim.",
   "technique": "Lean 4 proof (bit-permutation lemma, saturating-arithmetic range lemmas) + differential correspondence",
  },
+ "C02": {
+  "level": "Lean theorems for EVERY well-formed board and EVERY generated (pseudo-legal) move: unmake(make(b, m)) = b as a structural equality of the whole state "
+           "(15 bitboards, turn, move number, en-passant file, undo stack, repetition record, key); the legality probe and get_legal_moves leave the board unchanged; "
+           "n makes followed by n take-backs restore the board for any n. The invariant WF is proved for the start position and preserved by every generated move. "
+           "The model is tied to the code by full-state comparison around every make/unmake and legal-move query of the walk stream, including positions that repeat earlier ones.",
+  "note": "Trusted: Lean kernel, the hand-written model of make_move/unmake_move/get_all_moves (validated against the implementation on every explored position: complete state dumps, "
+          "generation order, legal lists), harness/driver. The repetition record is modelled as a list of keys (most recent first); the Rust count map is its multiset.",
+  "technique": "Lean 4 proof (bit-level lemmas, XOR algebra, invariant preservation) + differential correspondence",
+ },
+ "C04": {
+  "level": "Lean theorems for every well-formed board and every generated move: the incrementally maintained key equals the from-scratch key after make, and after any interleaving of makes "
+           "and take-backs (induction over operation sequences); the from-scratch key reads only placement, rights, en-passant file and side to move, so transpositions and FEN reloads "
+           "give the same key. Proofs use XOR algebra only and are independent of the table values. Correspondence: incremental = from-scratch = FEN-reload key on every explored position, "
+           "same identity => same key across the whole run.",
+  "note": "Trusted: Lean kernel, hand-written model (validated on every explored position), harness/driver.",
+  "technique": "Lean 4 proof (XOR-fold algebra, case analysis on move kinds, induction over op sequences) + differential correspondence",
+ },
 }
